@@ -64,7 +64,7 @@ BIG_LENGTHS = [2048, 4095, 4096, 4097, 8192, 12288, 16384, 32768, 65535, 65536, 
 
 
 # C11: source callback alone and together with a repair callback (which the Reed-Solomon codecs never call)
-CB11 = ("buf", "null", "mix", "buf rep", "mix rep", "buf")
+CB11 = ("buf", "null", "mix", "buf rep", "mix rep", "slab")
 
 
 def both_role(rng, p):
@@ -514,7 +514,7 @@ def workload(pid, tier, rng):
     ld_mid = [p for p in gen.ldpc_points(16) if p.n > (10 if q else 12)][: (2 if q else 6)]
     rs_small = gen.rs_points(6 if q else 8, ms=(4, 8))
     rs_mid = [p for p in gen.rs_points(10 if q else 12, ms=(4,), codecs=(2,)) if p.n > (6 if q else 8)]
-    cbs_all = (None, "buf", "null", "mix", "buf rep", "null rep")
+    cbs_all = (None, "buf", "null", "mix", "buf rep", "null rep", "slab")
     if pid == "C01":
         execs += ldpc_exhaustive(ld_small[:4 if q else 8], rng, apis=("recv", "setavail"), finish=(True, False), orders=1, probe="end")
         execs += ldpc_exhaustive(ld_small[:2 if q else 4], rng, apis=("recv",), cbs=("buf", "mix"), orders=2, probe="end")
